@@ -1,1 +1,78 @@
-From LV Require Import Coop.Model.
+(* C17 — non-vacuity: the hypotheses of the property theorems are satisfied
+   by concrete, non-trivial states (values taken from runs of the real code). *)
+From Coq Require Import List ZArith Bool Lia.
+From LV Require Import Coop.Model Coop.Proofs Coop.Props.
+Import ListNotations.
+Local Open Scope Z_scope.
+
+Ltac decide_range := unfold in_range; repeat split; vm_compute;
+  first [reflexivity | (let K := fresh in intros K; discriminate K)].
+
+(* an anchor channel of 10 BTC opened by us: 4.2 BTC (+ 777 msat) local,
+   the rest remote, commit fee 9050 sat, dust limits 354 / 546 *)
+Definition ex_view : chan_view :=
+  mkView true false true 420000000777 579990289223 9050 354 546 false.
+Definition ex_req : close_req :=
+  mkReq 1234 [0; 20; 1; 2; 3] [0; 20; 9; 9; 9] false false None None None.
+
+Example ex_in_range : in_range ex_view ex_req.
+Proof. decide_range. Qed.
+
+Example ex_ledger :
+  v_local_msat ex_view + v_remote_msat ex_view + 1000 * opener_credit ex_view
+  = 1000 * 1000000000.
+Proof. reflexivity. Qed.
+
+Example ex_proposal :
+  close_proposal ex_view ex_req =
+  inr (mkDesc 2 4294967295 0 [(420008476, [0; 20; 1; 2; 3]); (579990289, [0; 20; 9; 9; 9])],
+       420008476).
+Proof. vm_compute. reflexivity. Qed.
+
+(* both outputs present: 1 sat is lost to msat truncation, as C17_conservation allows *)
+Example ex_conservation :
+  sum_outs [(420008476, [0; 20; 1; 2; 3]); (579990289, [0; 20; 9; 9; 9])] + 1234
+  = 1000000000 - 1.
+Proof. reflexivity. Qed.
+
+(* the guard in both directions *)
+Example ex_guard_refused :
+  let r := mkReq 420009711 [1] [2] false false None None None in
+  in_range ex_view r /\ payer_gross ex_view r < r_fee r /\
+  close_proposal ex_view r = inl ErrAfford.
+Proof. cbv zeta. split; [decide_range|]. split; vm_compute; reflexivity. Qed.
+
+Example ex_guard_accepted :
+  let r := mkReq 420009710 [1] [2] false false None None None in
+  in_range ex_view r /\ ~ payer_gross ex_view r < r_fee r /\
+  exists d b, close_proposal ex_view r = inr (d, b).
+Proof.
+  cbv zeta. split; [decide_range|]. split; [vm_compute; discriminate|].
+  eexists _, _. vm_compute. reflexivity.
+Qed.
+
+(* the counterparty derives the same transaction *)
+Example ex_same_tx :
+  exists b', close_proposal (mirror_view ex_view) (mirror_req ex_req) =
+  inr (mkDesc 2 4294967295 0 [(420008476, [0; 20; 1; 2; 3]); (579990289, [0; 20; 9; 9; 9])], b').
+Proof. eexists. vm_compute. reflexivity. Qed.
+
+(* negotiation: ideal fees 687 and 35495 sat (observed on the real code: 41
+   ClosingSigned deliveries including the 2 final echoes, agreed on 4180 sat;
+   the proved bound is 43 + 4 = 47) *)
+Example ex_negotiation_hyps :
+  100 <= 687 /\ 100 <= 35495 /\ Z.max 687 35495 <= 35496 /\
+  Z.max 687 35495 <= 500000000 /\ Z.max 687 35495 < 2 ^ 60 /\
+  100 * Z.max 687 35495 * 1000 ^ Z.of_nat 43 <= 129 * Z.min 687 35495 * 1091 ^ Z.of_nat 43.
+Proof. repeat split; vm_compute; discriminate. Qed.
+
+Example ex_negotiation_run :
+  let s := sys_run 47 (sys_start false 687 35496 500000000 35495 106485 500000000) in
+  agreedb s = Some 4180 /\ sys_rounds s = 41%nat /\ sys_msg s = None.
+Proof. vm_compute. repeat split; reflexivity. Qed.
+
+(* the bound is not slack by much: 42 ratchet steps would not be enough to
+   satisfy the potential hypothesis *)
+Example ex_negotiation_bound_tightness :
+  ~ 100 * Z.max 687 35495 * 1000 ^ Z.of_nat 42 <= 129 * Z.min 687 35495 * 1091 ^ Z.of_nat 42.
+Proof. vm_compute. intros H. apply H. reflexivity. Qed.
